@@ -124,12 +124,59 @@ func (e *Exec) addPC(t *Term) {
 		return
 	}
 	e.pc = append(e.pc, t)
+	e.noteFixed(t)
+}
+
+// noteFixed records variables whose value the path condition pins down
+// (conjuncts of the form var == const), so that later conditions over pinned
+// variables are decided by evaluation instead of a solver query.
+func (e *Exec) noteFixed(t *Term) {
+	switch t.Op {
+	case OpBAnd:
+		e.noteFixed(t.A[0])
+		e.noteFixed(t.A[1])
+	case OpEq:
+		a, b := t.A[0], t.A[1]
+		if b.Op == OpVar && a.IsConst() {
+			a, b = b, a
+		}
+		if a.Op == OpVar && b.IsConst() {
+			e.fixVar(a, b.C)
+		}
+	case OpVar:
+		if t.S.K == KBool {
+			e.fixVar(t, 1)
+		}
+	case OpBNot:
+		if t.A[0].Op == OpVar {
+			e.fixVar(t.A[0], 0)
+		}
+	}
+}
+
+func (e *Exec) fixVar(v *Term, val uint64) {
+	if _, ok := e.fixedModel[v.Name]; ok {
+		return
+	}
+	e.fixedModel[v.Name] = val
+	e.fixedBits = bitsetUnion(e.fixedBits, v.vs)
+}
+
+// evalFixed evaluates t when it depends only on pinned variables
+func (e *Exec) evalFixed(t *Term) (uint64, bool) {
+	if t.uf || len(e.fixedBits) == 0 || !t.vs.subsetOf(e.fixedBits) {
+		return 0, false
+	}
+	return e.fixedEval.Eval(t), true
 }
 
 // branch decides a boolean condition on this path (forking if both sides are feasible)
 func (e *Exec) branch(c *Term) bool {
 	if c.IsConst() {
 		return c.C == 1
+	}
+	if v, ok := e.evalFixed(c); ok {
+		return v != 0
 	}
 	if e.inInit {
 		e.unsupported("symbolic branch during package initialisation")
@@ -233,35 +280,28 @@ func (e *Exec) checkMsg(ok *Term, msg func() string) {
 
 const maxConcretize = 300
 
-// concretize forks over the feasible values of t and returns the one of this path
+// concretize forks over the feasible values of t and returns the one of this path.
+// All feasible values are enumerated at the first encounter (solver-guided),
+// so that the alternatives can be explored in parallel.
 func (e *Exec) concretize(t *Term, what string) uint64 {
 	if t.IsConst() {
 		return t.C
+	}
+	if v, ok := e.evalFixed(t); ok {
+		return v
 	}
 	if e.inInit {
 		e.unsupported("symbolic value during package initialisation")
 	}
 	tc := e.tc
-	var excl []uint64
 	if e.dpos < len(e.decisions) {
 		d := e.decisions[e.dpos]
-		switch d.Kind {
-		case 'v':
-			e.dpos++
-			e.addPC(tc.Cmp(OpEq, t, tc.Const(t.S.W, d.V)))
-			return d.V
-		case 'x':
-			if e.dpos != len(e.decisions)-1 {
-				panic(&pathAbort{status: "engine-error", msg: "open exclusion decision in the middle of a prefix"})
-			}
-			excl = d.Excl
-			e.decisions = e.decisions[:e.dpos]
-			for _, x := range excl {
-				e.addPC(tc.BNot(tc.Cmp(OpEq, t, tc.Const(t.S.W, x))))
-			}
-		default:
+		if d.Kind != 'v' {
 			panic(&pathAbort{status: "engine-error", msg: "decision kind mismatch (value) during re-execution at " + e.stackString(4)})
 		}
+		e.dpos++
+		e.addPC(tc.Cmp(OpEq, t, tc.Const(t.S.W, d.V)))
+		return d.V
 	}
 	e.stats.Forks++
 	v, ok := e.predict(t)
@@ -280,21 +320,32 @@ func (e *Exec) concretize(t *Term, what string) uint64 {
 			e.unsupported("solver unknown while concretising (" + what + ")")
 		}
 	}
-	if len(excl)+1 > e.maxConc() {
-		e.unsupported(fmt.Sprintf("more than %d feasible values while concretising (%s)", e.maxConc(), what))
-	}
-	eq := tc.Cmp(OpEq, t, tc.Const(t.S.W, v))
-	r, m := e.query(tc.BNot(eq), "concretize-alt")
-	if r != "unsat" {
-		nx := append(append([]uint64(nil), excl...), v)
-		if r != "sat" {
-			m = nil
+	// enumerate the other feasible values
+	excl := tc.BNot(tc.Cmp(OpEq, t, tc.Const(t.S.W, v)))
+	n := 1
+	for {
+		r, m := e.query(excl, "concretize-alt")
+		if r == "unsat" {
+			break
 		}
-		e.pushAlt(Decision{Kind: 'x', Excl: nx}, m)
+		if r != "sat" {
+			e.unsupported("solver unknown while enumerating values (" + what + ")")
+		}
+		ev := NewEvaluator(m)
+		x := ev.Eval(t)
+		if ev.imprecise {
+			e.unsupported("cannot evaluate term under model while enumerating values (" + what + ")")
+		}
+		n++
+		if n > e.maxConc() {
+			e.unsupported(fmt.Sprintf("more than %d feasible values while concretising (%s)", e.maxConc(), what))
+		}
+		e.pushAlt(Decision{Kind: 'v', V: x}, m)
+		excl = tc.BAnd(excl, tc.BNot(tc.Cmp(OpEq, t, tc.Const(t.S.W, x))))
 	}
 	e.decisions = append(e.decisions, Decision{Kind: 'v', V: v})
 	e.dpos++
-	e.addPC(eq)
+	e.addPC(tc.Cmp(OpEq, t, tc.Const(t.S.W, v)))
 	return v
 }
 
@@ -401,6 +452,9 @@ func (e *Exec) resetPath() {
 	e.ufCount = 0
 	e.nativeState = map[string]interface{}{}
 	e.md5Calls = nil
+	e.fixedModel = Model{}
+	e.fixedBits = nil
+	e.fixedEval = NewEvaluator(e.fixedModel)
 	e.arrayMode = false
 	e.obs = nil
 	e.floatArgs = nil
@@ -518,6 +572,12 @@ func (e *Exec) symIntercept(name string, args []Value) (Value, bool) {
 		}
 		if c == tc.False {
 			panic(&pathAbort{status: "infeasible"})
+		}
+		if v, ok := e.evalFixed(c); ok {
+			if v == 0 {
+				panic(&pathAbort{status: "infeasible"})
+			}
+			return nil, true
 		}
 		// an assumption is a branch whose false side is discarded
 		if e.dpos < len(e.decisions) {
